@@ -28,6 +28,8 @@ pub enum Variant {
     ShortHeaderProvided { dict: u32 },
     /// .lzma, size in header; LzmaParams::read_header + raw::LzmaDecoder
     RawFromHeader { dict: u32 },
+    /// .lzma, size in header, memory limit equal to the dictionary in effect (max(dict, 4096)): the window never needs more
+    KnownLimit { dict: u32 },
     /// raw decoder, size known
     RawKnown { dict: u32 },
     /// raw decoder, marker
@@ -55,6 +57,13 @@ pub fn build(lc: u32, lp: u32, pb: u32, prog: &[Sym], var: Variant, model_dict: 
         Variant::Known { dict } => Case::Dec {
             fmt: Fmt::Lzma,
             opts: Opts::default(),
+            input: Hex(enc::lzma_file(lc, lp, pb, dict, Some(n), &e.payload)),
+            rd: Rd::default(),
+            sk: Sk::default(),
+        },
+        Variant::KnownLimit { dict } => Case::Dec {
+            fmt: Fmt::Lzma,
+            opts: Opts { memlimit: Some(dict.max(4096) as u64), ..Opts::default() },
             input: Hex(enc::lzma_file(lc, lp, pb, dict, Some(n), &e.payload)),
             rd: Rd::default(),
             sk: Sk::default(),
@@ -247,6 +256,7 @@ pub fn run(tier: Tier) -> i32 {
                 Variant::HeaderIgnoredMarker { dict: 5000 },
                 Variant::ShortHeaderProvided { dict: 0x1801 },
                 Variant::RawFromHeader { dict: 0x2000 },
+                Variant::KnownLimit { dict: 4096 },
             ];
             let mut first = true;
             for var in variants {
@@ -508,7 +518,7 @@ pub fn run(tier: Tier) -> i32 {
                 prog.push(Sym::R(0, 3));
                 // what follows reads back across the wrap point at short and long distances
                 prog.extend([Sym::M(1, 5), Sym::L(0x78), Sym::M(2, 9), Sym::M(4000, 30), Sym::M(15, 40)]);
-                let var = if i % 2 == 0 { Variant::Known { dict: hd } } else { Variant::Marker { dict: hd } };
+                let var = if i % 3 == 0 { Variant::Known { dict: hd } } else if i % 3 == 1 { Variant::Marker { dict: hd } } else { Variant::KnownLimit { dict: hd } };
                 if let Some((b, _)) = build(3, 0, 2, &prog, var, 4096) {
                     ctx.eval(1);
                     ctx.nontriv(1);
